@@ -11,10 +11,11 @@ import re, sys
 from common import *
 
 repo, gen = sys.argv[1], sys.argv[2]
-col = strip_rust_comments(read_source(repo, "rs/anda_db/src/collection.rs"))
-sto = strip_rust_comments(read_source(repo, "rs/anda_db/src/storage.rs"))
+col = cut_tests(strip_rust_comments(read_source(repo, "rs/anda_db/src/collection.rs")))
+sto = cut_tests(strip_rust_comments(read_source(repo, "rs/anda_db/src/storage.rs")))
 
 W = r"\s*"
+ARGS = r"(?:[^()]|\([^()]*\))*"          # an argument list with one level of nested parentheses
 
 
 def rx(s):
@@ -22,135 +23,296 @@ def rx(s):
     return W.join(re.escape(tok) for tok in s.split(" "))
 
 
-def order(src, fn, markers, which=0):
-    body = fn_body(src, fn, which)
-    found = []
-    for name, pat in markers:
-        m = re.search(pat, body)
+def call(name):
+    """a call of a function of the same file: as written, or as `inlined_body` left it"""
+    return [r"\b" + re.escape(name) + W + r"(?:::<[^>()]*>)?" + W + r"\(", r"/\*" + re.escape(name) + r"\*/"]
+
+
+def split_top(text):
+    """split at top-level commas"""
+    out, depth, cur = [], 0, []
+    for ch in text:
+        if ch in "([{<":
+            depth += 1
+        elif ch in ")]}>":
+            depth -= 1
+        if ch == "," and depth <= 0:
+            out.append("".join(cur)); cur = []
+        else:
+            cur.append(ch)
+    if "".join(cur).strip():
+        out.append("".join(cur))
+    return [x.strip() for x in out]
+
+
+def fn_params(src, name):
+    """names of the non-self parameters of `fn name` (simple `x: T` / `mut x: T` patterns), in order"""
+    m = re.search(r"\bfn\s+" + re.escape(name) + r"\b\s*(?:<[^{;]*?>)?\s*\(", src)
+    if not m:
+        return []
+    i, depth = m.end(), 1
+    while i < len(src) and depth:
+        depth += src[i] in "([{"
+        depth -= src[i] in ")]}"
+        i += 1
+    ps = []
+    for part in split_top(src[m.end():i - 1]):
+        if re.fullmatch(r"&?\s*(?:'\w+\s+)?(?:mut\s+)?self", part):
+            continue
+        mm = re.match(r"(?:mut\s+)?(\w+)\s*:", part)
+        ps.append(mm.group(1) if mm else None)
+    return ps
+
+
+def inline(src, name, depth=0, stack=()):
+    """Like common.inlined_body, and additionally renames the callee's parameters to the caller's
+    argument when that argument is a plain (possibly borrowed) identifier — so a local handed to an
+    extracted helper keeps ONE name across the inlined text."""
+    body = try_fn_body(src, name)
+    if body is None:
+        die(f"translator: fn {name} not found")
+    if depth >= 5:
+        return body
+    # trait-method names (`impl Drop for …` etc. in the same file) are std calls when written bare: never inlined
+    names = set(all_fn_names(src)) - {name} - set(stack) - {"drop", "new", "default", "from", "into", "fmt", "clone", "eq", "hash", "cmp"}
+    out, i = [], 0
+    pat = re.compile(r"(?:\bself\s*\.\s*|\bSelf::\s*|(?<![\w.:]))([A-Za-z_][A-Za-z0-9_]*)\s*(?:::<[^>()]*>)?\(")
+    while True:
+        m = pat.search(body, i)
         if not m:
+            out.append(body[i:]); break
+        callee = m.group(1)
+        if callee not in names or body[max(0, m.start() - 3):m.start()].strip().endswith("fn"):
+            out.append(body[i:m.end()]); i = m.end(); continue
+        j, d = m.end(), 1
+        while j < len(body) and d:
+            d += body[j] in "([{"
+            d -= body[j] in ")]}"
+            j += 1
+        args = split_top(body[m.end():j - 1])
+        inner = inline(src, callee, depth + 1, stack + (name,))
+        for prm, arg in zip(fn_params(src, callee), args):
+            am = re.fullmatch(r"&?\s*(?:mut\s+)?(\w+)", arg)
+            if prm and am and am.group(1) != prm:
+                inner = re.sub(r"(?<![\w.])" + re.escape(prm) + r"\b(?!\s*:(?!:))", am.group(1), inner)
+                inner = re.sub(r"(:\s*)" + re.escape(prm) + r"\b", r"\g<1>" + am.group(1), inner)
+        out.append(body[i:m.start()] + "{ /*" + callee + "*/ " + body[m.end():j - 1] + " ; " + inner + " }")
+        i = j
+    return "".join(out)
+
+
+def body_of(src, fn, what):
+    """the body the markers are looked for in: private helpers of the same file inlined, so that a
+    block extracted into a helper (or a helper inlined by hand) leaves the marker order unchanged"""
+    if try_fn_body(src, fn) is None:
+        die(f"c05_conc_order: fn {fn} ({what}) not found")
+    return inline(src, fn)
+
+
+def order(src, fn, markers):
+    body = body_of(src, fn, "order skeleton")
+    found = []
+    for name, pats in markers:
+        p = first_pos(body, pats)
+        if p < 0:
             die(f"c05_conc_order: marker `{name}` not found in fn {fn}")
-        found.append((m.start(), name))
+        found.append((p, name))
     found.sort()
     return [n for _, n in found]
 
 
-def last_before_first(src, fn, a, b, which=0):
-    """is there an occurrence of pattern a before the first occurrence of b?"""
-    body = fn_body(src, fn, which)
-    mb = re.search(b, body)
-    if not mb:
-        die(f"c05_conc_order: `{b}` not found in fn {fn}")
-    return re.search(a, body[:mb.start()]) is not None
+def impl_block(src, ty):
+    """text of `impl <ty> { … }` (the inherent impl), brace balanced"""
+    m = re.search(r"\bimpl\s+" + re.escape(ty) + r"\s*\{", src)
+    if not m:
+        die(f"c05_conc_order: impl {ty} not found")
+    i = m.end() - 1
+    depth, j = 0, i
+    while j < len(src):
+        if src[j] == "{":
+            depth += 1
+        elif src[j] == "}":
+            depth -= 1
+            if depth == 0:
+                return src[i:j + 1]
+        j += 1
+    die(f"c05_conc_order: unbalanced braces in impl {ty}")
 
+
+# what is called (never the names of locals):
+GATE_SHARED = r"operation_gate[\s\S]{0,60}?\." + W + r"read_owned" + W + r"\(" + W + r"\)" + W + r"\." + W + "await"
+GATE_EXCL = r"operation_gate[\s\S]{0,60}?\." + W + r"write_owned" + W + r"\(" + W + r"\)" + W + r"\." + W + "await"
+DOC_LOCK = [r"\bdoc_lock" + W + r"\(" + ARGS + r"\)" + W + r"\." + W + r"lock" + W + r"\(" + W + r"\)" + W + r"\." + W + "await",
+            r"/\*doc_lock\*/[^}]*\}" + W + r"\." + W + r"lock" + W + r"\(" + W + r"\)" + W + r"\." + W + "await"]
+BITMAP_CHECK = rx("doc_ids . read ( ) . contains (")
+STORAGE_GET = r"storage" + W + r"\." + W + r"get" + W + r"(?:::" + W + r"<[^>()]*>)?" + W + r"\("
+FALLIBLE = lambda m: r"\." + W + m + W + r"\(" + ARGS + r"\)" + W + r"\?"      # `x.m(..)?`
+THREE_ARGS = lambda m: r"\." + W + m + W + r"\(" + W + r"[^,()]+," + W + r"[^,()]+," + W + r"[^,()]+\)"
+ASYNC_REMOVE = r"\." + W + r"remove" + W + r"\(" + ARGS + r"\)" + W + r"\." + W + "await"   # moka `cache.remove(path).await`
+BUMP = [r"cache_write_seqs" + W + r"\[[\s\S]{0,120}?\]" + W + r"\." + W + r"fetch_add"] + call("bump_cache_write_seq")
 
 facts = {}
 facts["mutationLease"] = order(col, "mutation_lease", [
-    ("gate_shared", rx("operation_gate . clone ( ) . read_owned ( ) . await")),
-    ("lifecycle", rx("self . ensure_mutable ( )")),
+    ("gate_shared", GATE_SHARED),
+    ("lifecycle", call("ensure_mutable")),
 ])
 facts["flush"] = order(col, "flush", [
-    ("gate_exclusive", rx("operation_gate . clone ( ) . write_owned ( ) . await")),
-    ("lifecycle", rx("self . ensure_mutable ( )")),
-    ("flush_inner", rx("self . flush_inner (")),
+    ("gate_exclusive", GATE_EXCL),
+    ("lifecycle", call("ensure_mutable")),
+    ("flush_inner", call("flush_inner")),
 ])
 facts["add"] = order(col, "add", [
-    ("lease", rx("self . mutation_lease ( ) . await")),
-    ("impl", rx("self . add_impl (")),
+    ("lease", call("mutation_lease")),
+    ("impl", call("add_impl")),
 ])
 facts["addImpl"] = order(col, "add_impl", [
-    ("validate", rx("self . schema . validate (")),
+    ("validate", rx("schema . validate (")),
     ("alloc", rx("max_document_id . fetch_add (")),
-    ("watermark", rx("self . ensure_allocation_watermark (")),
-    ("index_insert", rx("index . insert ( id")),
-    ("create", rx("self . storage . create (")),
-    ("bitmap", rx("self . doc_ids . write ( ) . add ( id )")),
-    ("counters", rx("self . update_metadata (")),
+    ("watermark", call("ensure_allocation_watermark")),
+    ("index_insert", FALLIBLE("insert")),
+    ("create", rx("storage . create (")),
+    ("bitmap", rx("doc_ids . write ( ) . add (")),
+    ("counters", r"insert_count" + W + r"\+="),
 ])
-facts["watermark"] = order(col, "ensure_allocation_watermark", [
-    ("check", rx("durable_alloc_watermark . load (")),
-    ("gate", rx("watermark_gate . lock ( ) . await")),
-    ("put", rx("self . storage . put (")),
-    ("publish", rx("durable_alloc_watermark . fetch_max (")),
-])
-body = fn_body(col, "ensure_allocation_watermark")
+wb = body_of(col, "ensure_allocation_watermark", "watermark")
+LOAD = rx("durable_alloc_watermark . load (")
+# the check may be wrapped in a local closure (`let covered = || id <= ….load(..);` … `covered()`):
+# blank the closure definition and count its calls as checks
+CHECK = [LOAD]
+for cm in list(re.finditer(r"\blet\s+(\w+)\s*=\s*(?:move\s+)?\|\s*\|([^;]*);", wb)):
+    if re.search(LOAD, cm.group(2)):
+        wb = wb[:cm.start()] + " " * (cm.end() - cm.start()) + wb[cm.end():]
+        CHECK.append(r"\b" + re.escape(cm.group(1)) + W + r"\(" + W + r"\)")
+wm = [("check", CHECK), ("gate", rx("watermark_gate . lock ( ) . await")), ("put", rx("storage . put (")),
+      ("publish", rx("durable_alloc_watermark . fetch_max ("))]
+found = []
+for name, pats in wm:
+    p = first_pos(wb, pats)
+    if p < 0:
+        die(f"c05_conc_order: marker `{name}` not found in fn ensure_allocation_watermark")
+    found.append((p, name))
+facts["watermark"] = [n for _, n in sorted(found)]
 facts_bool = {}
-facts_bool["watermarkDoubleChecked"] = len(re.findall(rx("durable_alloc_watermark . load ("), body)) >= 2 and \
-    last_before_first(col, "ensure_allocation_watermark", rx("watermark_gate . lock ( ) . await") + r"[\s\S]*" + rx("durable_alloc_watermark . load ("), rx("self . storage . put ("))
+g = re.search(rx("watermark_gate . lock ( ) . await"), wb)
+pw = re.search(rx("storage . put ("), wb)
+facts_bool["watermarkDoubleChecked"] = bool(g and pw and first_pos(wb[:g.start()], CHECK) >= 0
+                                            and first_pos(wb[g.end():pw.start()], CHECK) >= 0)
 facts["update"] = order(col, "update", [
-    ("lease", rx("self . mutation_lease ( ) . await")),
-    ("impl", rx("self . update_impl (")),
+    ("lease", call("mutation_lease")),
+    ("impl", call("update_impl")),
 ])
 facts["updateImpl"] = order(col, "update_impl", [
-    ("bitmap_check", rx("self . doc_ids . read ( ) . contains ( id )")),
-    ("doc_lock", rx("self . doc_lock ( id ) . lock ( ) . await")),
-    ("get", rx("storage . get :: <")),
-    ("validate", rx("self . schema . validate (")),
-    ("intent", rx("self . record_mutation_intent (")),
-    ("index_update", rx("index . update ( id")),
-    ("put", rx("self . storage . put (")),
-    ("counters", rx("self . update_metadata (")),
+    ("bitmap_check", BITMAP_CHECK),
+    ("doc_lock", DOC_LOCK),
+    ("get", STORAGE_GET),
+    ("validate", rx("schema . validate (")),
+    ("intent", call("record_mutation_intent")),
+    ("index_update", FALLIBLE("update")),
+    ("put", rx("storage . put (")),
+    ("counters", r"update_count" + W + r"\+="),
 ])
-ub = fn_body(col, "update_impl")
-facts_bool["updatePutIsVersionConditioned"] = re.search(rx("storage . put ( & path , & doc , Some ( ver )") + W + r",?" + W + r"\)", ub) is not None
-# the guard of the doc lock must be a named binding that lives to the end of the function (not `let _ =`)
-facts_bool["updateHoldsDocLockToEnd"] = re.search(r"let\s+_[A-Za-z]\w*\s*=" + W + rx("self . doc_lock ( id ) . lock ( ) . await"), ub) is not None and \
-    re.search(r"drop\(\s*_doc_guard\s*\)", ub) is None
+ub = body_of(col, "update_impl", "update")
+# the document PUT is conditioned on *a* version (`Some(..)` as third argument, not `None`)
+facts_bool["updatePutIsVersionConditioned"] = re.search(
+    rx("storage . put (") + W + r"[^,()]+," + W + r"[^,()]+," + W + r"Some" + W + r"\(" + W + r"\w+" + W + r"\)" + W + r",?" + W + r"\)", ub) is not None
+
+
+def holds_lock_to_end(body, fn):
+    """the guard of the doc lock is bound to a name (not `_`) that is never dropped explicitly"""
+    p = first_pos(body, DOC_LOCK)
+    if p < 0:
+        die(f"c05_conc_order: doc lock acquisition not found in fn {fn}")
+    lets = list(re.finditer(r"\blet\s+(?:mut\s+)?(\w+)\s*(?::[^=;]+)?=", body[:p]))
+    if not lets or len(body[lets[-1].end():p].strip()) > 400:
+        return False
+    name = lets[-1].group(1)
+    # nothing but the acquisition expression (possibly wrapped by an inlined helper) between `let x =` and the lock
+    between = re.sub(r"\{\s*/\*\w+\*/[^{}]*", "", body[lets[-1].end():p])
+    if ";" in between:
+        return False
+    return name != "_" and re.search(r"\bdrop\s*(?:\(|\*/)\s*" + re.escape(name) + r"\b", body) is None
+
+
+facts_bool["updateHoldsDocLockToEnd"] = holds_lock_to_end(ub, "update_impl")
 facts["removeImpl"] = order(col, "remove_impl", [
-    ("bitmap_check", rx("self . doc_ids . read ( ) . contains ( id )")),
-    ("doc_lock", rx("self . doc_lock ( id ) . lock ( ) . await")),
-    ("get", rx("storage . get :: <")),
-    ("intent", rx("self . record_mutation_intent (")),
-    ("index_remove", rx("index . remove ( id")),
-    ("delete", rx("self . storage . delete (")),
-    ("bitmap_remove", rx("doc_ids_index . remove ( & id )")),
-    ("counters", rx("self . update_metadata (")),
+    ("bitmap_check", BITMAP_CHECK),
+    ("doc_lock", DOC_LOCK),
+    ("get", STORAGE_GET),
+    ("intent", call("record_mutation_intent")),
+    ("index_remove", THREE_ARGS("remove")),
+    ("delete", rx("storage . delete (")),
+    ("bitmap_remove", rx("doc_ids_index . remove (")),
+    ("counters", r"delete_count" + W + r"\+="),
 ])
-rb = fn_body(col, "remove_impl")
-facts_bool["removeHoldsDocLockToEnd"] = re.search(r"let\s+_[A-Za-z]\w*\s*=" + W + rx("self . doc_lock ( id ) . lock ( ) . await"), rb) is not None and \
-    re.search(r"drop\(\s*_doc_guard\s*\)", rb) is None
+rb = body_of(col, "remove_impl", "remove")
+facts_bool["removeHoldsDocLockToEnd"] = holds_lock_to_end(rb, "remove_impl")
 facts["flushInner"] = order(col, "flush_inner", [
-    ("indexes", rx("self . store_indexes (")),
-    ("metadata", rx("self . store_metadata (")),
-    ("ids", rx("self . store_ids (")),
-    ("checkpoint", rx("self . storage . store_metadata (")),
-    ("intents", rx("self . clear_mutation_intents (")),
+    ("indexes", call("store_indexes")),
+    ("metadata", [r"(?<!storage)" + W + r"\." + W + r"store_metadata" + W + r"\(", r"/\*store_metadata\*/"]),
+    ("ids", call("store_ids")),
+    ("checkpoint", rx("storage . store_metadata (")),
+    ("intents", call("clear_mutation_intents")),
 ])
 facts["saveExtension"] = order(col, "save_extension", [
-    ("lease", rx("self . mutation_lease ( ) . await")),
-    ("set", rx("self . update_metadata (")),
-    ("persist", rx("self . store_metadata_unclaimed ( ) . await")),
+    ("lease", call("mutation_lease")),
+    ("set", rx("extensions . insert (")),
+    ("persist", call("store_metadata_unclaimed")),
 ])
 facts["storeMetadataUnclaimed"] = order(col, "store_metadata_unclaimed", [
     ("gate", rx("extension_write_gate . lock ( ) . await")),
-    ("snapshot", rx("self . metadata ( )")),
-    ("expected_version", rx("self . metadata_version . read ( )")),
-    ("put", rx(". put_bytes (")),
-    ("publish_version", rx("self . metadata_version . write ( )")),
+    ("snapshot", [rx("self . metadata ( )"), r"/\*metadata\*/"]),
+    ("expected_version", rx("metadata_version . read (")),
+    ("put", r"\." + W + r"put_bytes" + W + r"\("),
+    ("publish_version", rx("metadata_version . write (")),
 ])
 facts["get"] = order(col, "get", [
-    ("bitmap_check", rx("self . doc_ids . read ( ) . contains ( id )")),
-    ("storage_get", rx("storage . get :: <")),
+    ("bitmap_check", BITMAP_CHECK),
+    ("storage_get", STORAGE_GET),
 ])
-# storage.rs: the read cache
-facts["innerGet"] = order(sto, "inner_get", [
-    ("serve_if_generation_matches", rx("arc . write_seq == self . inner . cache_write_seq ( path )")),
-    ("read_generation", rx("let cache_write_seq = self . inner . cache_write_seq ( path )")),
-    ("fetch", rx("self . inner_fetch ( path ) . await")),
-    ("recheck_generation", rx("self . inner . cache_write_seq ( path ) == cache_write_seq")),
-    ("insert", rx(". insert (")),
+
+# storage.rs: the read cache. Names of locals are captured, never assumed.
+ig = body_of(sto, "inner_get", "read cache")
+GEN = r"(?:self" + W + r"\." + W + r"inner" + W + r"\." + W + r")?cache_write_seq" + W + r"\(" + ARGS + r"\)"
+snap = re.search(r"\blet\s+(\w+)\s*(?::[^=;]+)?=\s*" + GEN + W + r";", ig)
+if not snap:
+    die("c05_conc_order: inner_get does not bind the write generation to a local before the fetch")
+V = re.escape(snap.group(1))
+facts["innerGet"] = []
+ig_markers = [
+    ("serve_if_generation_matches", [r"\." + W + r"write_seq" + W + r"==" + W + GEN, GEN + W + r"==" + W + r"\w+" + W + r"\." + W + r"write_seq",
+                                     # inverted: `if entry.write_seq != generation { return … }`
+                                     r"\." + W + r"write_seq" + W + r"!=" + W + GEN + W + r"\{" + W + r"return\b",
+                                     GEN + W + r"!=" + W + r"\w+" + W + r"\." + W + r"write_seq" + W + r"\{" + W + r"return\b"]),
+    ("read_generation", r"\blet\s+" + V + r"\b"),
+    ("fetch", call("inner_fetch")),
+    ("recheck_generation", [GEN + W + r"==" + W + V + r"\b", r"\b" + V + W + r"==" + W + GEN,
+                            GEN + W + r"!=" + W + V + W + r"\{" + W + r"return\b", r"\b" + V + W + r"!=" + W + GEN + W + r"\{" + W + r"return\b"]),
+    ("insert", r"\." + W + r"insert" + W + r"\("),
+]
+found = []
+for name, pats in ig_markers:
+    p = first_pos(ig, pats)
+    if p < 0:
+        die(f"c05_conc_order: marker `{name}` not found in fn inner_get")
+    found.append((p, name))
+facts["innerGet"] = [n for _, n in sorted(found)]
+# the entry stores the generation read *before* the fetch
+facts_bool["cacheEntryCarriesPreFetchGeneration"] = re.search(r"\bwrite_seq" + W + r":" + W + V + r"\b", ig) is not None or \
+    re.search(r"\bwrite_seq" + W + r"[,}]", ig) is not None and snap.group(1) == "write_seq"
+
+inner = impl_block(sto, "InnerStorage")
+facts["storagePut"] = order(inner, "put", [
+    ("backend_put", r"\." + W + r"put_opts" + W + r"\("),
+    ("publish", call("published_write")),
 ])
-facts["storagePut"] = order(sto, "put", [
-    ("backend_put", rx(". put_opts (")),
-    ("publish", rx("self . published_write (")),
-], which=len(re.findall(r"\bfn\s+put\b", sto)) - 1)
-facts["publishedWrite"] = order(sto, "published_write", [
-    ("bump_generation", rx("self . bump_cache_write_seq ( path )")),
-    ("evict", rx("cache . remove ( path )")),
+facts["publishedWrite"] = order(inner, "published_write", [
+    ("bump_generation", BUMP),
+    ("evict", ASYNC_REMOVE),
 ])
 facts["storageDelete"] = order(sto, "delete", [
-    ("backend_delete", rx(". delete ( & path )")),
-    ("bump_generation", rx("bump_cache_write_seq ( & path )")),
-    ("evict", rx("cache . remove ( & path )")),
+    ("backend_delete", rx("object_store . delete (")),
+    ("bump_generation", BUMP),
+    ("evict", ASYNC_REMOVE),
 ])
 
 EXPECT = {
